@@ -28,7 +28,7 @@ import drive
 import drive_persist as dp
 from corr import c06
 
-THEOREMS = ['RB.Session.c08_resume_equiv_partial', 'RB.Session.c08_rerun_noop', 'RB.Session.c08_final_recorded_spec',
+THEOREMS = ['RB.Session.c08_resume_equiv', 'RB.Session.c08_resume_equiv_counts', 'RB.Session.c08_rerun_noop', 'RB.Session.c08_final_recorded_spec',
             'RB.Session.c08_interrupted_safe']
 SCHEDS = ['batch', 'round-robin', 'random']
 
